@@ -75,6 +75,12 @@ let judge op args got =
       verdict2 m ("ok " ^ hx (un_spec o m x)) (render hx (run_un o m x)) (render hx (hrun_un o m x))
   | "pow" ->
       let m = a 1 and x = a 2 and e = a 3 in
+      (* the word-list instance multiplies and divides lists word by word: its cost grows with n^2 * bits of the exponent;
+         beyond the budget (about 64 words x 480 bits) only the value-level instance is evaluated *)
+      let n = (Zar.numbits m + 63) / 64 in
+      if n * n * Zar.numbits e > 2_000_000 then
+        expect ~extra:(fid (render hx (run_pow m x e)) got ^ " cls=" ^ kind_s m ^ " path=words-skipped") ("ok " ^ hx (powm m x e)) got
+      else
       verdict2 m ("ok " ^ hx (powm m x e)) (render hx (run_pow m x e)) (render hx (hrun_pow m x e))
   | "inv" ->
       let m = a 1 and x = a 2 in
